@@ -1227,7 +1227,15 @@ func (s Subtitles) WriteToSSA(o io.Writer) (err error) {
 		var format = []string{ssaStyleFormatNameName}
 		var styles = make(map[string]*ssaStyle)
 		var styleNames []string
-		for _, s := range s.Styles {
+		// Loop through the keys of the map in a deterministic order: when two entries share a style ID which of them
+		// is written must not depend on the map's iteration order
+		var styleKeys []string
+		for k := range s.Styles {
+			styleKeys = append(styleKeys, k)
+		}
+		sort.Strings(styleKeys)
+		for _, k := range styleKeys {
+			var s = s.Styles[k]
 			if s == nil {
 				continue
 			}
